@@ -27,8 +27,8 @@ def template_scenario(prog, template, seq):
         inputs["T[%d].type" % i] = OBJ
         inputs["T[%d].getValue" % i] = Ptr("get%d" % i)
         inputs["T[%d].descr" % i] = Ptr("d%d" % i)
-    for j, (tag, nc) in enumerate(seq):
-        inputs["tlv%d->tag" % j] = tag
+    for j, e_ in enumerate(seq):
+        inputs["tlv%d->tag" % j] = e_[0]
     pos = [0]
     seen = {}
 
@@ -69,12 +69,19 @@ def template_scenario(prog, template, seq):
             return seq[int(a.what[3:])][1]
         return TOP
 
+    def forward(I, p, node, args):
+        a = args[0]
+        if isinstance(a, Ptr) and a.what.startswith("tlv"):
+            e = seq[int(a.what[3:])]
+            return e[2] if len(e) > 2 else 0
+        return TOP
+
     def mset(I, p, node, args):
         for k in range(8):
             I.write(p, "templateHit[%d]" % k, 0)
         return TOP
     ov = {"getTemplateLength": lambda I, p, n, a: len(template), "extractObject": extract_obj, "extractComposite": extract_obj,
-          "KSI_TLV_getTag": tag_of, "KSI_TLV_isNonCritical": noncrit, "memset": mset, "track_str": lambda I, p, n, a: Ptr("s"),
+          "KSI_TLV_getTag": tag_of, "KSI_TLV_isNonCritical": noncrit, "KSI_TLV_isForward": forward, "memset": mset, "track_str": lambda I, p, n, a: Ptr("s"),
           "KSI_snprintf": lambda I, p, n, a: 0, "KSI_TLV_free": lambda I, p, n, a: TOP}
     I = Interp(fe, inputs=inputs, call_model=succeed_model(prog, ov, fallback), on_unknown="stop", prog=prog, loop_bound=12)
     paths = I.run()
@@ -104,7 +111,7 @@ def _run(prog, chk):
         "the statement accepts (NUL only last, lead byte followed by exactly its number of 80..bf bytes, nothing truncated).")
     chk.not_decided = ["the accepting direction for all trees", "re-serialisation of unknown elements (C11)"]
     chk.rule("C10.schema", "template table equals the reviewed schema", floor=37)
-    chk.rule("C10.flags", "every constraint flag is enforced by the template interpreter (accept / reject scenario pairs)", floor=28)
+    chk.rule("C10.flags", "every constraint flag is enforced by the template interpreter (accept / reject scenario pairs)", floor=32)
     chk.rule("C10.depth", "template graph acyclic, nesting depth and table sizes within the interpreter's fixed arrays", floor=2)
     chk.rule("C10.values", "value parsers refuse malformed integers, strings and imprints", floor=5)
 
@@ -170,6 +177,9 @@ def _run(prog, chk):
         ("unknown critical element", [(A, 0, 0)], [(A, 0), (X, 1)], [(A, 0), (X, 0)]),
         ("unknown critical element, two-byte tag", [(A, 0, 0)], [(0x1f7e, 1), (A, 0)], [(0x1f7e, 0), (A, 0)]),
         ("unknown critical element, tag 0", [(A, 0, 0)], None, [(0, 0)]),
+        # the forward flag says what an intermediary does with an element it relays, not that a reader may skip it
+        ("unknown critical element with the forward flag", [(A, 0, 0)], [(A, 0), (X, 1, 1)], [(A, 0), (X, 0, 1)]),
+        ("unknown critical element with the forward flag, two-byte tag", [(A, 0, 0)], [(0x1f7e, 1, 1), (A, 0)], [(0x1f7e, 0, 1), (A, 0)]),
     ]
     for name, tmpl, good, bad in cases:
         for kind, seq in (("accept", good), ("reject", bad)):
@@ -184,7 +194,7 @@ def _run(prog, chk):
             chk.ob("C10.flags", "extractGenerator[%s:%s]" % (name, kind), ok,
                    "template %s, elements %s: expected %s, source returns %s" %
                    ([(hex(t), [n for n, v in F.items() if fl & v], "list" if m else "single") for t, fl, m in tmpl],
-                    [(hex(t), "non-critical" if nc else "critical") for t, nc in seq], "KSI_OK" if kind == "accept" else "KSI_INVALID_FORMAT",
+                    [(hex(e_[0]), ("non-critical" if e_[1] else "critical") + (" forward" if len(e_) > 2 and e_[2] else "")) for e_ in seq], "KSI_OK" if kind == "accept" else "KSI_INVALID_FORMAT",
                     hex(r) if isinstance(r, int) else r), loc=fe.loc(), fn=fe)
 
     # ------------------------------------------------------------------ depth / sizes
